@@ -99,7 +99,8 @@ def do_import_benign(pid, src):
 def run_checks(pids, root=REPO):
     out = {}
     for pid in pids:
-        rc, txt = sh("./check %s --repo %s --no-evidence" % (pid, root) if root != "/repo" else "./check %s" % pid, cwd=VERIF)
+        # VERIF_CODE: run the checks of a frozen copy of /verif (so that the checkers can be worked on meanwhile)
+        rc, txt = sh("./check %s --repo %s --no-evidence" % (pid, root) if root != "/repo" else "./check %s" % pid, cwd=os.environ.get("VERIF_CODE", VERIF))
         rules = sorted(set(re.findall(r"\[([A-Z0-9][A-Z0-9-]+)\]", "\n".join(l for l in txt.splitlines() if l.startswith("  ") and "[" in l and "rule " not in l[:8]))))
         viol = [l for l in txt.splitlines() if l.startswith("VIOLATION")]
         out[pid] = {"exit": rc, "violations": len(viol), "rules": rules}
